@@ -17,7 +17,7 @@ import (
 type OutMsg struct {
 	MID   string `json:"mid"`
 	Type  string `json:"type"`  // EM or CM
-	Title string `json:"title"` // 1..80 ASCII bytes
+	Title string `json:"title"` // 1..80 bytes on the wire (ASCII for most; raw ISO-8859-1 and encoded words for some)
 	Data  []byte `json:"-"`     // uncompressed message
 }
 
